@@ -96,6 +96,15 @@ def gen_sections(rnd, allow_bad=True):
     for t in rnd.sample(UNKNOWN_TAGS, rnd.choice([0, 0, 1, 2])):
         secs.append((t, rnd.choice(TRACK + EVENTS)))
     rnd.shuffle(secs)
+    if rnd.random() < 0.35:
+        # blank / whitespace-only lines inside bodies: unparsable lines like any other (seeded C14e: a
+        # scanner that skipped empty lines while counting line indices lost the last body line)
+        for k in rnd.sample(range(len(secs)), rnd.randrange(1, len(secs) + 1)) if secs else []:
+            tag, body = secs[k]
+            body = list(body)
+            for _ in range(rnd.choice([1, 1, 2, 3])):
+                body.insert(rnd.randrange(len(body) + 1), rnd.choice(["", "", "  ", "\t"]))
+            secs[k] = (tag, body)
     r = rnd.random()
     if r < 0.3:
         want = None
